@@ -280,9 +280,34 @@ def _identity(model: Model, I: RuleResult):
     else:
         I.bad(f, f.node, "the inverse map must number identities by their position in the unique list")
     cl = model.func(PACK, "Packer.construct_from_tensor_list")
-    exp = [s for s in own_nodes(cl.node) if isinstance(s, ast.Assign) and isinstance(s.value, ast.ListComp)
-           and "_unique_inverse_idxs" in ast.unparse(s.value.elt)]
-    if exp and isinstance(exp[0].value.elt, ast.Subscript) and ast.unparse(exp[0].value.elt.value) == "tensors":
-        I.ok(cl.fq, "unique tensors are re-expanded through the inverse map before refilling: %s" % norm_stmt(exp[0], 90))
-    else:
+    # abstract run of the re-expansion: unique tensors [T0, T1, T2] with inverse map [0, 1, 0, 2, 1] must become [T0, T1, T0, T2, T1]
+    from ..domains.dictsem import DictInterp, Unsupported as _DU, Raised as _DR, Tok
+    from ..model import parent as _parent
+    tp = cl.params()[1]
+    exp = [s_ for s_ in own_nodes(cl.node) if isinstance(s_, ast.Assign) and "_unique_inverse_idxs" in ast.unparse(s_.value)
+           and any(isinstance(t, ast.Name) for t in s_.targets)]
+    if not exp:
         I.bad(cl, cl.node, "the unique tensor list must be re-expanded with the inverse index map before refilling")
+    else:
+        st = exp[-1]
+        blk = None
+        par = _parent(st)
+        for fld in ("body", "orelse", "finalbody"):
+            bl = getattr(par, fld, None)
+            if isinstance(bl, list) and any(x is st for x in bl):
+                blk = bl[:[i for i, x in enumerate(bl) if x is st][0] + 1]
+        toks = [Tok("T0", is_tensor=True), Tok("T1", is_tensor=True), Tok("T2", is_tensor=True)]
+        inv = [0, 1, 0, 2, 1]
+        it = DictInterp({tp: list(toks), "%s._unique_inverse_idxs" % cl.params()[0]: list(inv)})
+        try:
+            it.run([x for x in (blk or [st]) if not isinstance(x, ast.Assert)])
+            got = it.env.get(st.targets[0].id if isinstance(st.targets[0], ast.Name) else tp)
+            want = [toks[i] for i in inv]
+            if isinstance(got, (list, tuple)) and len(got) == len(want) and all(x is y for x, y in zip(got, want)):
+                I.ok(cl.fq, "unique tensors are re-expanded through the inverse map before refilling: %s [abstract run: inverse map %s]" % (norm_stmt(st, 90), inv))
+            else:
+                I.bad(cl, st, "the unique tensor list must be re-expanded with the inverse index map before refilling: unique [T0, T1, T2] with inverse map %s gives %r" % (inv, got))
+        except _DU as e:
+            I.undecided(cl, st, "cannot interpret the re-expansion of the unique tensor list: %s" % e)
+        except _DR as e:
+            I.bad(cl, st, "the re-expansion of the unique tensor list raises (%s)" % e)
